@@ -330,6 +330,36 @@ Next ==
     \/ \E i \in OtherPoints : SysGetPoint(i)
     \/ Save \/ Load("Load") \/ Load("LoadInplace") \/ SysSaveLoad
 
+\* the operation named (op, arg): lets a test-generation module take ONE given operation without
+\* evaluating the whole alphabet
+Do(op, arg) ==
+    \/ op = "Position" /\ Position
+    \/ op = "Gamma" /\ Gamma
+    \/ op = "LinearModes" /\ LinearModes
+    \/ op = "NormalForm" /\ NormalForm
+    \/ op = "LinearData" /\ LinearData
+    \/ op = "Energy" /\ Energy
+    \/ op = "Jacobi" /\ Jacobi
+    \/ op = "Eigenvalues" /\ Eigenvalues
+    \/ op = "IsStable" /\ IsStable
+    \/ op = "CreateOrbit" /\ CreateOrbit
+    \/ op = "ReadOptions" /\ ReadOptions
+    \/ op = "ReadConfig" /\ ReadConfig
+    \/ op = "SysPoints" /\ SysPoints
+    \/ op = "Cn" /\ Cn(arg[1])
+    \/ op = "ScaleFactor" /\ ScaleFactor(arg[1])
+    \/ op = "Hamiltonian" /\ Hamiltonian(arg[1], arg[2])
+    \/ op = "HamSys" /\ HamSys(arg[1], arg[2])
+    \/ op = "GenFuncs" /\ GenFuncs(arg[1])
+    \/ op = "GetCM" /\ GetCM(arg[1])
+    \/ op = "RetargetCM" /\ RetargetCM(arg[1], arg[2])
+    \/ op = "SetOptions" /\ SetOptions(arg[1])
+    \/ op = "SetConfig" /\ SetConfig(arg[1])
+    \/ op = "SysGetPoint" /\ SysGetPoint(arg[1])
+    \/ op = "Save" /\ Save
+    \/ op \in {"Load", "LoadInplace"} /\ Load(op)
+    \/ op = "SysSaveLoad" /\ SysSaveLoad
+
 Spec == Init /\ [][Next]_vars
 HistBound == Len(hist) <= MaxLen
 
